@@ -169,6 +169,9 @@ func rtOracle(args, res string, kindsOnly bool) string {
 	if kindsOnly {
 		// C07: whatever Marshal ACCEPTS must come back as the same Go type; exceptions: a caller-built RawPacket is
 		// dispatched by its own octets, a TWCC header is the caller's
+		if hasPrefix(res, "panic") {
+			return "Marshal/Unmarshal of the packet's own output panicked"
+		}
 		if !hasPrefix(res, "ok ") {
 			return ""
 		}
